@@ -292,7 +292,8 @@ def run_check(cid: str, tier: str) -> int:
     wall = time.time() - t0
     findings = load_findings(cid)
     rc = 0
-    os.makedirs(os.path.join(ROOT, "replays"), exist_ok=True)
+    replay_dir = os.environ.get("VERIF_REPLAY_DIR") or os.path.join(ROOT, "replays")
+    os.makedirs(replay_dir, exist_ok=True)
     # violations
     seen = set()
     nviol = 0
@@ -303,7 +304,7 @@ def run_check(cid: str, tier: str) -> int:
         seen.add(cls)
         nviol += 1
         name = "%s-%d-%d.json" % (cid, seed, v["run"])
-        path = os.path.join(ROOT, "replays", name)
+        path = os.path.join(replay_dir, name)
         json.dump({"property": cid, "seed": seed, "run": v["run"], "signature": v["signature"], "detail": v["detail"], "plan": v["plan"]}, open(path, "w"), indent=1)
         print("violation: %s" % v["signature"])
         print("  detail: %s" % v["detail"][:1500])
@@ -375,8 +376,9 @@ def write_evidence(check: Any, cid: str, tier: str, seed: int, wall: float, agg:
         "wall_s": round(wall, 2),
         "violations": nviol,
     }
-    os.makedirs(os.path.join(ROOT, "evidence"), exist_ok=True)
-    json.dump(ev, open(os.path.join(ROOT, "evidence", "%s.json" % cid), "w"), indent=1, default=str)
+    evdir = os.environ.get("VERIF_EVIDENCE_DIR") or os.path.join(ROOT, "evidence")
+    os.makedirs(evdir, exist_ok=True)
+    json.dump(ev, open(os.path.join(evdir, "%s.json" % cid), "w"), indent=1, default=str)
 
 
 def replay(path: str) -> int:
